@@ -2,14 +2,28 @@ package main
 
 import (
 	"bytes"
+	"crypto"
+	"crypto/ecdh"
+	"crypto/ecdsa"
+	"crypto/ed25519"
+	"crypto/elliptic"
+	crand "crypto/rand"
 	"crypto/sha256"
+	"crypto/x509"
+	"crypto/x509/pkix"
+	"encoding/asn1"
 	"encoding/binary"
+	"encoding/hex"
 	"encoding/pem"
 	"fmt"
 	"hash/crc32"
+	"math/big"
 	"os"
 	"path/filepath"
+	"runtime"
+	"sort"
 	"strings"
+	"sync"
 	"time"
 
 	"github.com/foxboron/go-uefi/efi/device"
@@ -159,6 +173,171 @@ func init() {
 	workerOps["readcert"] = func(a map[string]string) (string, string) {
 		_, err := util.ReadCert(unhx(a["b"]))
 		return errCls(err), ""
+	}
+	// the same two decoders through their file entry points (the key / certificate file on disk)
+	viaFile := func(b []byte, read func(path string) error) (string, string) {
+		f, err := os.CreateTemp("", "vcheck-keyfile-")
+		if err != nil {
+			return "err", "no temporary file"
+		}
+		defer os.Remove(f.Name())
+		f.Write(b)
+		f.Close()
+		return errCls(read(f.Name())), ""
+	}
+	workerOps["readkey.file"] = func(a map[string]string) (string, string) {
+		return viaFile(unhx(a["b"]), func(p string) error { _, err := util.ReadKeyFromFile(p); return err })
+	}
+	workerOps["readcert.file"] = func(a map[string]string) (string, string) {
+		return viaFile(unhx(a["b"]), func(p string) error { _, err := util.ReadCertFromFile(p); return err })
+	}
+	// MANY calls of one decoder in one process, each on a different input of one family (see c14Variant):
+	// "many.retain" runs them one after the other and reports the live heap (HeapAlloc after a garbage
+	// collection) gained after n and after 4n calls - what a decoder keeps must not depend on how many
+	// different inputs it has seen; "many.concurrent" runs them on g goroutines at once (half of each
+	// goroutine's inputs are its own, half are the ones every goroutine decodes).
+	workerOps["many.retain"] = func(a map[string]string) (string, string) {
+		f, ok := workerOps[a["ep"]]
+		if !ok || strings.HasPrefix(a["ep"], "many.") {
+			return "bad-op", a["ep"]
+		}
+		base, at, w, n := unhx(a["b"]), atoi(a["at"]), atoi(a["w"]), atoi(a["n"])
+		call := func(i int) {
+			f(map[string]string{"b": hx(c14Variant(base, at, w, a["mode"], i)), "reader": a["reader"]})
+		}
+		live := func() int64 {
+			var m runtime.MemStats
+			runtime.GC()
+			runtime.GC()
+			runtime.ReadMemStats(&m)
+			return int64(m.HeapAlloc)
+		}
+		for i := 1; i <= 64; i++ { // whatever is set up once (tables, pools) is set up before the first measurement
+			call(-i)
+		}
+		h0 := live()
+		for i := 0; i < n; i++ {
+			call(i)
+		}
+		h1 := live()
+		for i := n; i < 4*n; i++ {
+			call(i)
+		}
+		h2 := live()
+		return "ok", fmt.Sprintf("%d %d", h1-h0, h2-h0)
+	}
+	workerOps["many.concurrent"] = func(a map[string]string) (string, string) {
+		f, ok := workerOps[a["ep"]]
+		if !ok || strings.HasPrefix(a["ep"], "many.") {
+			return "bad-op", a["ep"]
+		}
+		base, at, w, n, g := unhx(a["b"]), atoi(a["at"]), atoi(a["w"]), atoi(a["n"]), atoi(a["g"])
+		var wg sync.WaitGroup
+		var mu sync.Mutex
+		panics := []string{}
+		start := make(chan struct{})
+		for k := 0; k < g; k++ {
+			wg.Add(1)
+			go func(k int) {
+				defer wg.Done()
+				defer func() {
+					if r := recover(); r != nil {
+						mu.Lock()
+						panics = append(panics, fmt.Sprint(r))
+						mu.Unlock()
+					}
+				}()
+				<-start
+				for i := 0; i < n; i++ {
+					idx := i // decoded by every goroutine
+					if i%2 == 1 {
+						idx = (k+1)*n + i // decoded by this goroutine only
+					}
+					f(map[string]string{"b": hx(c14Variant(base, at, w, a["mode"], idx)), "reader": a["reader"]})
+				}
+			}(k)
+		}
+		close(start)
+		wg.Wait()
+		if len(panics) > 0 {
+			panic(panics[0]) // reported as class "panic" like any other recovered panic
+		}
+		return "ok", ""
+	}
+}
+
+// c14Variant is input number i of a family of inputs of one shape: base with the w bytes at offset at
+// replaced by bytes derived from i (mode "bin": the bytes of SHA-256(i); mode "hex": its lower-case hex
+// digits, which keep GUID text, base64 and UTF-16 text well-formed). Different i give different inputs.
+func c14Variant(base []byte, at, w int, mode string, i int) []byte {
+	out := append([]byte{}, base...)
+	var k [8]byte
+	binary.LittleEndian.PutUint64(k[:], uint64(int64(i)))
+	h := sha256.Sum256(k[:])
+	src := h[:]
+	if mode == "hex" {
+		src = []byte(hex.EncodeToString(h[:]))
+	}
+	for j := 0; j < w && at+j < len(out); j++ {
+		if at+j >= 0 {
+			out[at+j] = src[j%len(src)]
+		}
+	}
+	return out
+}
+
+// retainBudget: what the live heap may have gained between the n-th and the 4n-th call on different
+// inputs: a constant for the runtime's own bookkeeping plus 4 bytes per call (a decoder that keeps even
+// one machine word per distinct input it has seen exceeds it).
+func retainBudget(calls int) int64 { return 32<<10 + 4*int64(calls) }
+
+// c14ManyEval: the decoders over the lifetime of a process - many different inputs one after the other
+// (memory kept afterwards) or at the same time on several goroutines (no crash of the process).
+func c14ManyEval(c *Ctx, cs Case) {
+	ep, op := cs.S("ep"), cs.S("op")
+	args := map[string]string{"ep": ep, "b": cs.S("b"), "at": fmt.Sprint(cs.I("at")), "w": fmt.Sprint(cs.I("w")), "mode": cs.S("mode"),
+		"n": fmt.Sprint(cs.I("n")), "g": fmt.Sprint(cs.I("g")), "reader": cs.S("reader")}
+	res := c14Worker.Do("many."+op, args, 60*time.Second)
+	if res.Class == "not-run" {
+		c.Class(op + "/" + ep + "/not-run-after-timeouts")
+		return
+	}
+	c.Count(cs.Key(), true, op+"/"+ep+"/"+res.Class)
+	fail := func(what string) {
+		c.Fail(Failure{Kind: "property", What: ep + ": " + what, Case: cs, Go: fmt.Sprintf("%s alloc=%d ms=%d %s%s", res.Class, res.Alloc, res.Ms, res.Panic, res.Out)})
+	}
+	calls := cs.I("n") * 4
+	how := fmt.Sprintf("%d different inputs of %d bytes one after the other in one process", calls, len(unhx(cs.S("b"))))
+	if op == "concurrent" {
+		calls = cs.I("n") * cs.I("g")
+		how = fmt.Sprintf("%d inputs of %d bytes on %d goroutines at the same time (each goroutine decodes its own inputs and some that the others decode too)", calls, len(unhx(cs.S("b"))), cs.I("g"))
+	}
+	switch res.Class {
+	case "ok":
+	case "panic":
+		fail("the process crashed or a decoder panicked while decoding " + how)
+		return
+	case "exit":
+		fail("the process was terminated while decoding " + how)
+		return
+	case "oom":
+		fail("the process ran out of memory while decoding " + how)
+		return
+	case "timeout":
+		fail("no answer after 60 s while decoding " + how)
+		return
+	default:
+		fail("unexpected answer " + res.Class + " while decoding " + how)
+		return
+	}
+	if op == "retain" {
+		var r1, r2 int64
+		fmt.Sscanf(res.Out, "%d %d", &r1, &r2)
+		c.Note("retain/"+ep+"/"+cs.S("family"), fmt.Sprintf("live heap gained after %d calls: %d bytes, after %d calls: %d bytes", cs.I("n"), r1, calls, r2))
+		if grow := r2 - r1; grow > retainBudget(int(calls-cs.I("n"))) {
+			fail(fmt.Sprintf("memory kept by the process grows with the number of different inputs decoded before: the live heap (after garbage collection) gained %d bytes over the first %d inputs and %d bytes over %d inputs (%d bytes per further input; the inputs are %d bytes each and nothing decoded is kept by the caller)",
+				r1, cs.I("n"), r2, calls, grow/(calls-cs.I("n")), len(unhx(cs.S("b")))))
+		}
 	}
 }
 
@@ -343,6 +522,10 @@ func c14Eval(c *Ctx, cs Case) {
 	}
 	if cs.S("gen") != "" {
 		c14ScaleEval(c, cs)
+		return
+	}
+	if op := cs.S("op"); op == "retain" || op == "concurrent" {
+		c14ManyEval(c, cs)
 		return
 	}
 	res := c14Worker.Do(ep, map[string]string{"b": hx(b), "reader": cs.S("reader")}, 10*time.Second)
@@ -676,11 +859,215 @@ func c14Gen(c *Ctx) {
 			emit("readkey", "truncated", "", kb[:cut])
 		}
 	}
+	// WELL-FORMED key and certificate files of every kind a key file can hold, not only RSA in PKCS #8:
+	// every file goes to the key AND the certificate decoder, in memory and as a file on disk, whole,
+	// cut, and next to a certificate
+	km := c14KeyMaterial(c)
+	names := make([]string, 0, len(km))
+	for name := range km {
+		names = append(names, name)
+	}
+	sort.Strings(names)
+	for _, name := range names {
+		b := km[name]
+		for _, ep := range []string{"readkey", "readcert", "readkey.file", "readcert.file"} {
+			emit(ep, "keyfile/"+name, "", b)
+		}
+		for _, ep := range []string{"readkey", "readcert"} {
+			emit(ep, "keyfile/"+name+"+cert", "", append(append([]byte{}, b...), pemCert...))
+			emit(ep, "keyfile/cert+"+name, "", append(append([]byte{}, pemCert...), b...))
+			emit(ep, "keyfile/text+"+name, "", append([]byte("Bag Attributes\n    localKeyID: 01 02\nKey Attributes: <No Attributes>\n"), b...))
+			for cut := 1; cut < len(b); cut += 1 + len(b)/c.P(12, 60) {
+				emit(ep, "keyfile/"+name+"/cut", "", b[:cut])
+			}
+		}
+	}
+	for _, ep := range []string{"readkey.file", "readcert.file"} {
+		emit(ep, "empty", "", nil)
+		emit(ep, "not-pem", "", []byte("hello"))
+		emit(ep, "valid-cert-pem", "", pemCert)
+	}
+	// --- the decoders over the lifetime of a process: MANY calls on different inputs of one shape ---
+	// (a) one after the other: the memory the process keeps afterwards (live heap after a garbage
+	// collection) must not grow with the number of different inputs decoded before;
+	// (b) on several goroutines at once: the process must survive (a fatal runtime error such as
+	// "concurrent map writes" cannot be recovered and is seen as the death of the worker).
+	hdOpt := append(append([]byte{1, 0, 0, 0, 46, 0, 'x', 0, 0, 0, 4, 1, 42, 0}, make([]byte, 38)...), 0x7f, 0xff, 4, 0)
+	hdOpt[14], hdOpt[14+36], hdOpt[14+37] = 1, 2, 2
+	descOpt := append(append([]byte{1, 0, 0, 0, 4, 0}, bytes.Repeat([]byte{0x41, 0}, 8)...), 0, 0, 0x7f, 0xff, 4, 0)
+	sd := append([]byte{48, 0, 0, 0}, make([]byte, 48)...)
+	text := []byte("file 0000000000000000\n")
+	type family struct {
+		ep, name   string
+		base       []byte
+		at, w      int
+		mode       string
+		concurrent bool
+	}
+	fams := []family{
+		{"guid.parse", "guid-text/first-group", []byte("00000000-93ca-11d2-aa0d-00e098032b8c"), 0, 8, "hex", true},
+		{"guid.parse", "guid-text/last-group", []byte("8be4df61-93ca-11d2-aa0d-000000000000"), 24, 12, "hex", true},
+		{"guid.parse", "guid-text/no-dashes", []byte("00000000000000000000000000000000"), 0, 32, "hex", true},
+		{"guid.parse", "guid-text/not-hex", []byte("zzzzzzzz-0000-0000-0000-000000000000"), 9, 12, "bin", true},
+		{"guid.bytes", "guid-bytes", make([]byte, 16), 0, 16, "bin", true},
+		{"sigdb.read", "sha256-list/data", sha, 28 + 16, 32, "bin", true},
+		{"sigdb.read", "sha256-list/owner", sha, 28, 16, "bin", true},
+		{"siglist.read", "sha256-list/data", sha, 28 + 16, 32, "bin", true},
+		{"sigdb.read", "x509-list/owner", x5, 28, 16, "bin", true},
+		{"sigdata.read", "sigdata", sd, 4, 48, "bin", true},
+		{"auth.read", "descriptor/payload", desc, len(desc) - 7, 7, "bin", true},
+		{"auth.read", "descriptor/time", desc, 0, 7, "bin", true},
+		{"wincert.read", "wincert/data", wc, 24, 10, "bin", true},
+		{"wincertguid.read", "wincert/data", wc, 24, 10, "bin", true},
+		{"loadoption", "hd-option/signature", hdOpt, 14 + 20, 16, "bin", true},
+		{"loadoption", "option/description", descOpt, 6, 16, "hex", true},
+		{"devicepath", "hd-path/signature", hdOpt[10:], 4 + 20, 16, "bin", true},
+		{"utf16", "string", append(bytes.Repeat([]byte{0x41, 0}, 12), 0, 0), 0, 24, "hex", true},
+		{"efistring", "string", append(bytes.Repeat([]byte{0x41, 0}, 12), 0, 0), 0, 24, "hex", true},
+		{"bootorder", "order", make([]byte, 16), 0, 16, "bin", false}, // (through the in-memory test store, one per call)
+		{"supportedsigs", "guid-list", make([]byte, 48), 0, 48, "bin", true},
+		{"efivars.parse", "attribute-file", append([]byte{7, 0, 0, 0}, make([]byte, 12)...), 4, 12, "bin", true},
+		{"readcert", "pem/text-before", append(append([]byte{}, text...), pemCert...), 5, 16, "hex", true},
+		{"readcert", "pem/body", pemCert, len(pemCert) / 2, 8, "hex", true},
+		{"readkey", "pem/text-before", append(append([]byte{}, text...), km["pkcs8/ecdsa-p256"]...), 5, 16, "hex", true},
+		{"readkey", "pem/body", km["pkcs8/ed25519"], len(km["pkcs8/ed25519"]) / 2, 8, "hex", true},
+	}
+	if kb, err := os.ReadFile(filepath.Join(c.RepoDir, "authenticode/testdata/db.key")); err == nil {
+		fams = append(fams, family{"readkey", "pem/rsa/text-before", append(append([]byte{}, text...), kb...), 5, 16, "hex", true})
+	}
+	for _, f := range fams {
+		if c.NFailures() >= 40 {
+			break
+		}
+		n := c.P(2500, 25000)
+		if strings.HasPrefix(f.ep, "read") || f.ep == "bootorder" {
+			n /= 5 // an X.509 / PKCS #8 parse or a file-system walk per call
+		}
+		cs := Case{"op": "retain", "ep": f.ep, "family": f.name, "b": hx(f.base), "at": f.at, "w": f.w, "mode": f.mode, "n": n, "g": 0}
+		c14Eval(c, cs)
+		if f.concurrent {
+			c14Eval(c, Case{"op": "concurrent", "ep": f.ep, "family": f.name, "b": hx(f.base), "at": f.at, "w": f.w, "mode": f.mode, "n": n / 2, "g": c.P(8, 16)})
+		}
+	}
+}
+
+// c14KeyMaterial: well-formed PEM files as key tools write them. Private keys: RSA, ECDSA (P-224, P-256,
+// P-384, P-521), Ed25519 and X25519 (a key that cannot sign) in PKCS #8 "PRIVATE KEY"; RSA in PKCS #1 "RSA
+// PRIVATE KEY"; ECDSA in SEC 1 "EC PRIVATE KEY"; each encoding also under the label of another one; the
+// legacy encrypted form (Proc-Type / DEK-Info headers) and a PKCS #8 "ENCRYPTED PRIVATE KEY"; public keys;
+// self-signed certificates of every signing key kind; a certificate request. The keys are made for the
+// run (the case carries the file, so a replay is exact).
+func c14KeyMaterial(c *Ctx) map[string][]byte {
+	out := map[string][]byte{}
+	blk := func(typ string, body []byte) []byte { return pem.EncodeToMemory(&pem.Block{Type: typ, Bytes: body}) }
+	signers := map[string]crypto.Signer{"rsa": poolKey(c, 2048, 0)}
+	for name, curve := range map[string]elliptic.Curve{"ecdsa-p224": elliptic.P224(), "ecdsa-p256": elliptic.P256(), "ecdsa-p384": elliptic.P384(), "ecdsa-p521": elliptic.P521()} {
+		if k, err := ecdsa.GenerateKey(curve, crand.Reader); err == nil {
+			signers[name] = k
+			if der, err := x509.MarshalECPrivateKey(k); err == nil {
+				out["sec1/"+name] = blk("EC PRIVATE KEY", der)
+				out["sec1-labelled-pkcs8/"+name] = blk("PRIVATE KEY", der)
+				if name == "ecdsa-p256" {
+					// as written by `openssl ecparam -genkey`: the curve parameters in a block of their own first
+					out["sec1-after-ecparams/"+name] = append(blk("EC PARAMETERS", []byte{0x06, 0x08, 0x2a, 0x86, 0x48, 0xce, 0x3d, 0x03, 0x01, 0x07}), blk("EC PRIVATE KEY", der)...)
+					if enc, err := x509.EncryptPEMBlock(crand.Reader, "EC PRIVATE KEY", der, []byte("password"), x509.PEMCipherAES256); err == nil { //nolint:staticcheck
+						out["legacy-encrypted/"+name] = pem.EncodeToMemory(enc)
+					}
+				}
+			}
+		}
+	}
+	if _, k, err := ed25519.GenerateKey(crand.Reader); err == nil {
+		signers["ed25519"] = k
+	}
+	for name, k := range signers {
+		if der, err := x509.MarshalPKCS8PrivateKey(k); err == nil {
+			out["pkcs8/"+name] = blk("PRIVATE KEY", der)
+			if name != "rsa" {
+				out["pkcs8-labelled-pkcs1/"+name] = blk("RSA PRIVATE KEY", der)
+				out["pkcs8-labelled-sec1/"+name] = blk("EC PRIVATE KEY", der)
+			}
+			// PKCS #8 EncryptedPrivateKeyInfo (PBES2: PBKDF2-HMAC-SHA256 + AES-256-CBC) around it; the
+			// decoders have no password, the file is well-formed all the same
+			if name == "rsa" || name == "ecdsa-p256" || name == "ed25519" {
+				out["pkcs8-encrypted/"+name] = blk("ENCRYPTED PRIVATE KEY", encryptedPKCS8Shape(c, len(der)))
+			}
+		}
+		if der, err := x509.MarshalPKIXPublicKey(k.Public()); err == nil {
+			out["public/"+name] = blk("PUBLIC KEY", der)
+		}
+		tmpl := &x509.Certificate{SerialNumber: big.NewInt(int64(len(out) + 1)), Subject: pkix.Name{CommonName: "key file " + name},
+			NotBefore: time.Unix(1700000000, 0), NotAfter: time.Unix(2000000000, 0), KeyUsage: x509.KeyUsageDigitalSignature, BasicConstraintsValid: true}
+		if der, err := x509.CreateCertificate(crand.Reader, tmpl, tmpl, k.Public(), k); err == nil {
+			out["certificate/"+name] = blk("CERTIFICATE", der)
+			out["certificate-labelled-key/"+name] = blk("PRIVATE KEY", der)
+			if p8, err := x509.MarshalPKCS8PrivateKey(k); err == nil {
+				out["key-labelled-certificate/"+name] = blk("CERTIFICATE", p8)
+			}
+		}
+		if name == "ecdsa-p384" {
+			if der, err := x509.CreateCertificateRequest(crand.Reader, &x509.CertificateRequest{Subject: pkix.Name{CommonName: "request"}}, k); err == nil {
+				out["request/"+name] = blk("CERTIFICATE REQUEST", der)
+			}
+		}
+	}
+	rk := poolKey(c, 2048, 0)
+	p1 := x509.MarshalPKCS1PrivateKey(rk)
+	out["pkcs1/rsa"] = blk("RSA PRIVATE KEY", p1)
+	out["pkcs1-labelled-pkcs8/rsa"] = blk("PRIVATE KEY", p1)
+	out["public-pkcs1/rsa"] = blk("RSA PUBLIC KEY", x509.MarshalPKCS1PublicKey(&rk.PublicKey))
+	if enc, err := x509.EncryptPEMBlock(crand.Reader, "RSA PRIVATE KEY", p1, []byte("password"), x509.PEMCipherAES128); err == nil { //nolint:staticcheck
+		out["legacy-encrypted/rsa"] = pem.EncodeToMemory(enc)
+	}
+	if xk, err := ecdh.X25519().GenerateKey(crand.Reader); err == nil {
+		if der, err := x509.MarshalPKCS8PrivateKey(xk); err == nil {
+			out["pkcs8/x25519"] = blk("PRIVATE KEY", der)
+		}
+	}
+	if ek, err := ecdh.P256().GenerateKey(crand.Reader); err == nil {
+		if der, err := x509.MarshalPKCS8PrivateKey(ek); err == nil {
+			out["pkcs8/ecdh-p256"] = blk("PRIVATE KEY", der)
+		}
+	}
+	return out
+}
+
+// encryptedPKCS8Shape: the DER of a PKCS #8 EncryptedPrivateKeyInfo with PBES2 parameters around n bytes
+// (rounded up to the cipher block) of ciphertext
+func encryptedPKCS8Shape(c *Ctx, n int) []byte {
+	type algID struct {
+		Algorithm  asn1.ObjectIdentifier
+		Parameters asn1.RawValue `asn1:"optional"`
+	}
+	raw := func(v interface{}) asn1.RawValue {
+		b, err := asn1.Marshal(v)
+		if err != nil {
+			panic(err)
+		}
+		return asn1.RawValue{FullBytes: b}
+	}
+	kdf := struct {
+		Salt []byte
+		Iter int
+		PRF  algID
+	}{randBytes(c, 8), 2048, algID{asn1.ObjectIdentifier{1, 2, 840, 113549, 2, 9}, asn1.NullRawValue}}
+	params := struct{ KDF, Enc algID }{
+		algID{asn1.ObjectIdentifier{1, 2, 840, 113549, 1, 5, 12}, raw(kdf)},
+		algID{asn1.ObjectIdentifier{2, 16, 840, 1, 101, 3, 4, 1, 42}, raw(randBytes(c, 16))},
+	}
+	b, err := asn1.Marshal(struct {
+		Alg  algID
+		Data []byte
+	}{algID{asn1.ObjectIdentifier{1, 2, 840, 113549, 1, 5, 13}, raw(params)}, randBytes(c, (n/16+1)*16)})
+	if err != nil {
+		panic(err)
+	}
+	return b
 }
 
 func init() {
 	register("C14", &PropDef{
-		Rule:   "17 decoder entry points (ReadSignatureDatabase/List/Data, ReadEFIVariableAuthencation2, ReadWinCertificate(UEFIGUID), EFILoadOption.Unmarshal + Format, ParseDevicePath + Format, ParseUtf16Var, Efistring, boot order, GetSupportedSignatures, ParseEfivars, StringToGUID, BytesToGUID, ReadKey, ReadCert) run in a sandboxed worker process (address-space limit, per-input timeout, runtime.MemStats.TotalAlloc delta). The 9 entry points that take an io.Reader get every input through one of 8 reader kinds chosen by a hash of the case (bytes.Reader, bytes.Buffer, bufio.Reader, io.SectionReader, an open os.File, io.Pipe, a reader with no method but Read, a one-byte reader). Inputs: every size field of lists / descriptors / certificates swept over {0,1,7,8,15,16,17,23,24,27,28,29,2^16,2^24,2^31,2^32-1,...}, consistent headers promising one 2 GiB signature or 2^12..2^26 signatures of the list's own size, every truncation point, captured and generated load options cut everywhere / without end node / byte-mutated, every device-path (type, subtype) with 0..38 bytes of data and with a declared node Length of 0..3 (below the 4-byte node header) / exact / 0xffff, every node Length of the captured and generated load options set to 0..3, +-1 and 0xffff, every partition-format byte, size scaling (one signature list of 4096 and of 20000 SHA-256 entries [thorough: 16384 / 80000], 1000 / 5000 certificate-sized entries in one list, each also split into lists of 64 / 16 entries of the same total size; a boot order of 30000 entries, 20000 GUIDs, a device path of 20000 nodes, a string of 200000 characters: time <= 0.5 s + 1 µs/byte, memory budget, and one-list time <= 8 x split time + 0.1 s, best of 3 runs), UTF-16 edge cases, random short inputs, PEM material cut and mutated, files with several PEM blocks (key+certificate in both orders, unknown block types, headers, text around the blocks, empty blocks). Non-trivial: non-empty input; distinct = distinct (entry point, input). Static part: the call-graph certificate (see the Lean obligations).",
+		Rule:   "19 decoder entry points (ReadSignatureDatabase/List/Data, ReadEFIVariableAuthencation2, ReadWinCertificate(UEFIGUID), EFILoadOption.Unmarshal + Format, ParseDevicePath + Format, ParseUtf16Var, Efistring, boot order, GetSupportedSignatures, ParseEfivars, StringToGUID, BytesToGUID, ReadKey, ReadCert, ReadKeyFromFile, ReadCertFromFile) run in a sandboxed worker process (address-space limit, per-input timeout, runtime.MemStats.TotalAlloc delta). The 9 entry points that take an io.Reader get every input through one of 8 reader kinds chosen by a hash of the case (bytes.Reader, bytes.Buffer, bufio.Reader, io.SectionReader, an open os.File, io.Pipe, a reader with no method but Read, a one-byte reader). Inputs: every size field of lists / descriptors / certificates swept over {0,1,7,8,15,16,17,23,24,27,28,29,2^16,2^24,2^31,2^32-1,...}, consistent headers promising one 2 GiB signature or 2^12..2^26 signatures of the list's own size, every truncation point, captured and generated load options cut everywhere / without end node / byte-mutated, every device-path (type, subtype) with 0..38 bytes of data and with a declared node Length of 0..3 (below the 4-byte node header) / exact / 0xffff, every node Length of the captured and generated load options set to 0..3, +-1 and 0xffff, every partition-format byte, size scaling (one signature list of 4096 and of 20000 SHA-256 entries [thorough: 16384 / 80000], 1000 / 5000 certificate-sized entries in one list, each also split into lists of 64 / 16 entries of the same total size; a boot order of 30000 entries, 20000 GUIDs, a device path of 20000 nodes, a string of 200000 characters: time <= 0.5 s + 1 µs/byte, memory budget, and one-list time <= 8 x split time + 0.1 s, best of 3 runs), UTF-16 edge cases, random short inputs, PEM material cut and mutated, files with several PEM blocks (key+certificate in both orders, unknown block types, headers, text around the blocks, empty blocks); WELL-FORMED key files of every kind made for the run - RSA, ECDSA P-224/P-256/P-384/P-521, Ed25519, X25519 and ECDH keys in PKCS #8, RSA in PKCS #1, ECDSA in SEC 1 (also after an EC PARAMETERS block), each encoding also under the PEM label of another one, legacy encrypted PEM (Proc-Type/DEK-Info headers), PKCS #8 ENCRYPTED PRIVATE KEY, public keys, a certificate request, self-signed certificates of every signing key kind - each given to the key AND the certificate decoder in memory and as a file on disk, whole, cut at 12 [thorough: 60] points, before and after a certificate and after text. Lifetime of the process: for 26 input families (GUID text in four spellings, GUID bytes, signature lists / data, descriptors, WIN_CERTIFICATEs, hard-drive load options and paths, descriptions, strings, boot orders, GUID lists, attribute files, PEM certificates and keys with varying text before / inside the block) one worker process decodes 4 x 2500 DIFFERENT inputs of the family one after the other [X.509 / PKCS #8 / boot order: 4 x 500; thorough: x 10] and the live heap after garbage collection may gain at most 32 KiB + 4 bytes per call between the 2500th and the 10000th input (nothing may be kept per distinct input seen), and decodes 8 x 1250 inputs on 8 goroutines at once [thorough: 16 goroutines], half of them the goroutine's own and half common to all (normal build, no race detector): the worker must survive - a recovered panic, a fatal runtime error (concurrent map writes) or any other death of the worker is a violation reported with the family. Non-trivial: non-empty input; distinct = distinct (entry point, input). Static part: the call-graph certificate (see the Lean obligations).",
 		Assume: []string{"allocation budget 64 bytes per input byte + 2 MiB; time limit 3 s per input; for the large regular inputs 0.5 s + 1 µs per byte and at most 8 x the time of the same entries split into short lists + 0.1 s", "wall-clock time and resident memory are runtime facts measured on the sampled inputs only"},
 		Eval:   c14Eval, Gen: c14Gen,
 	})
